@@ -1,10 +1,12 @@
 from check import Job
 from props.node_snips import SN
+import itertools
 EXPLANATION = 'fetch scheduling kernels of Node on a partial Node: the retry delay is the initial back-off doubled per attempt up to the maximum (with the documented fallbacks for non-positive settings) and no attempt is scheduled once the limit is exhausted; per-peer in-flight counters equal the outstanding requests and never exceed the limit over every sequence of pending / dispatch / clear events'
 ASSUMPTIONS = ['schedule_next_fetch_attempt, can_dispatch_fetch, note_dispatch_start/end, clear_pending_fetch are lifted textually from the current core/Node.cpp and compiled against the real class declaration; only the members they touch exist',
-               'schedule_assigned_fetch / process_pending_fetches / dispatch_pending_fetch (manifest decoding, transport sends, provider refresh) are NOT encoded: the re-announce and expiry/held-locally clauses of the property are outside this check',
+               'schedule_assigned_fetch and dispatch_pending_fetch are lifted as well (decode_manifest supplied by the harness, role ledger / provider refresh / transport sends cut to stubs with arbitrary send outcome); process_pending_fetches (retry timing, manifest expiry, held-locally drop) is NOT encoded: those clauses are outside this check',
                'back-off settings in [-5, 86400] s, attempts 0..12, attempt limit 0..255; fetch-slot sequences of 4 (quick) / 6 (thorough) events over two chunks of one peer, limit 0..3']
 def jobs(tier):
     k = 4 if tier == 'quick' else 6
     return [Job('backoff', 'node_kern.cpp', 'h_c24_backoff', [0], reach=['success', 'exhausted', 'backoff'], snippets=SN, timeout=1500, bounds='every setting / attempt count in range'),
+            ] + [Job('reannounce-' + ''.join('ADC'[o] for o in ops), 'node_kern.cpp', 'h_c24_reannounce', [3, sum(o * 3 ** i for i, o in enumerate(ops))], reach=['announce'], snippets=SN, timeout=1500, bounds='events %s (announce/dispatch/arrival), 2 peers x 2 chunks' % ''.join('ADC'[o] for o in ops)) for ops in itertools.product(range(3), repeat=3) if ops[0] == 0] + [
             Job('fetch-slots-k%d' % k, 'node_kern.cpp', 'h_c24_fetch_slots', [k], reach=['dispatched', 'cleared'], snippets=SN, timeout=3000, bounds='%d events' % k)]
